@@ -19,6 +19,7 @@ type histOpts struct {
 	Weights  map[string]int
 	AfterTx  func(e *kmodel.Engine, res *kmodel.TxResult, before, after *dump.Dump)
 	NeedDump bool
+	Setup    func(e *kmodel.Engine)
 }
 
 func dumpDb(e *kmodel.Engine) *dump.Dump {
@@ -42,6 +43,9 @@ func runHistory(c *core.Ctx, r *core.Rand, o histOpts) {
 	defer e.Close()
 	if o.Weights != nil {
 		e.W = o.Weights
+	}
+	if o.Setup != nil {
+		o.Setup(e)
 	}
 	var hist [][]kmodel.Op
 	for t := 0; t < o.NTx; t++ {
